@@ -10,6 +10,14 @@ C17Configs == { [phase |-> 0, fabric |-> 0, regime |-> 4, n |-> 5],
                 [phase |-> 0, fabric |-> 4, regime |-> 7, n |-> 4],
                 [phase |-> 0, fabric |-> 1, regime |-> 2, n |-> 6],    \* unsupported regime still saves
                 [phase |-> 0, fabric |-> 0, regime |-> 0, n |-> 2] }   \* every ordinal zero ("falsy" metadata)
+\* Postfixes are opaque keys for the machine: two entries are the same entry iff their postfix STRINGS are equal.
+\* The family replayed on real archives is chosen so that every string relation a careless key lookup could
+\* confuse occurs between two members: prefix ("1" / "10"), tail after an underscore ("ol_1", "en_1" / "1"),
+\* head before an underscore ("1_ol" / "1"), an archive-member kind word ("meta", "fractions_1": members
+\* meta_meta, fractions_fractions_1), a blank inside and the empty postfix (members meta_, distinct from the
+\* whole-file member meta).
+PfFamily == {"1", "10", "q", "ol_1", "en_1", "1_ol", "meta", "fractions_1", "a b", ""}
+PfFamilyQ == {"1", "10", "ol_1", "en_1", "meta", ""}
 C17Pars == { [M |-> 125, chi |-> 3, asm |-> <<0, 1>>, phiOl |-> 7, x |-> <<5, 0>>] }
 \* construction and a few updates, then persistence only
 Grow(m) == \/ \E c \in Configs, s \in Seeds, tx \in Textures : Create(m, c, s, tx, InitO(s, c.n, tx), InitF(c.n, tx))
